@@ -184,6 +184,9 @@ def run_impl(binary, scn, strace=None, inject=None, timeout=20, with_mtime=False
             # a run that eats memory or fills the disk (an endless read of a device, an endless write) must not take the checker with it
             if limit_as:
                 resource.setrlimit(resource.RLIMIT_AS, (3 << 30, 3 << 30))
+            if scn.get("nofile"):
+                # a small limit on open files: every open(2) beyond it fails with EMFILE
+                resource.setrlimit(resource.RLIMIT_NOFILE, (scn["nofile"], scn["nofile"]))
             if scn.get("fsize0"):
                 # nothing can be written anywhere (as on a full disk): every write(2) to a regular file fails with EFBIG
                 import signal
